@@ -45,9 +45,10 @@ CFG = PropCfg(
 )
 
 MANIFEST = {
-    "text": "Proof (Lean 4, unbounded): for each of 12 codecs (one-byte-length strings, certificate id block, id "
+    "text": "Proof (Lean 4, unbounded): for each of 13 codecs (one-byte-length strings, certificate id block, id "
             "chunk, certificate, intent, grant message, tube frame and initiate frame, exec request, exec status, "
-            "user-auth request, port-forward request) the model writer/reader pair, transcribed field by field from the Go "
+            "user-auth request, port-forward request, target info = a core.URL as text with net/url's user-name "
+            "escaping for every byte value, hosts/ports of a restricted form) the model writer/reader pair, transcribed field by field from the Go "
             "code, satisfies C18_X_roundtrip (decode(encode v ++ rest) = (v, rest) for every representable v), "
             "C18_X_reject (unrepresentable values are refused by writers that have an error path) and "
             "C18_X_stable (every accepted byte string re-encodes to something that decodes to the same value); "
